@@ -35,14 +35,14 @@ const K_TABLE: [(&str, f64, f64); 11] = [
     ("hornuss", 2.0e-7, 1.5e-6),
     ("dct2x2", 4.0e-7, 3.0e-6),
     ("dct4x4", 6.0e-7, 4.0e-6),
-    ("dct4x8/8x4", 1.2e-6, 7.0e-6),
+    ("dct4x8/8x4", 1.2e-6, 8.0e-6),
     ("afv", 6.0e-7, 3.0e-6),
-    ("dct8x8", 2.0e-6, 1.0e-5),
-    ("dct16", 8.0e-6, 2.5e-5),
-    ("dct32", 1.0e-5, 6.0e-5),
-    ("dct64", 2.0e-5, 1.2e-4),
-    ("dct128", 3.0e-5, 3.0e-4),
-    ("dct256", 6.0e-5, 5.0e-4),
+    ("dct8x8", 2.2e-6, 1.0e-5),
+    ("dct16", 9.0e-6, 7.0e-5),
+    ("dct32", 1.0e-5, 7.0e-5),
+    ("dct64", 2.0e-5, 1.6e-4),
+    ("dct128", 3.2e-5, 3.2e-4),
+    ("dct256", 6.5e-5, 8.0e-4),
 ];
 fn k_ref(t: usize) -> (f64, f64) {
     let f = family_name(t);
